@@ -26,6 +26,10 @@ pub fn write_archive(dir: &Path, bands: &Value) {
         let bdir = dir.join(band_name(b["band"].as_u64().unwrap()));
         std::fs::create_dir_all(&bdir).unwrap();
         std::fs::create_dir_all(bdir.join("i")).unwrap();
+        if state == "emptyhead" {
+            std::fs::write(bdir.join("BANDHEAD"), b"").unwrap();
+            continue;
+        }
         if state != "nohead" && state != "noheadtail" {
             std::fs::write(
                 bdir.join("BANDHEAD"),
